@@ -31,6 +31,7 @@ def exhaustive(tier):
 
 def required(tier):
     return {"pairs_convertible": 1000, "pairs_refused": 10000, "predicate_evals": 5000,
+            "derived_dimension_specs": 1000, "derived_specs_matching_the_unit": 100,
             "listing_checked": 300, "cache_entries_audited": 300, "gen_registries": 10,
             "adjacent_exponent_twins": 1000}
 
@@ -46,6 +47,10 @@ def shards(tier, seed):
                     "nit": ("float", "fraction", "decimal")[i % 3]})
     for i in range(2 if tier == "quick" else 8):
         out.append({"kind": "generated", "name": f"gen{i}", "n": 25 if tier == "quick" else 130})
+    for i in range(2 if tier == "quick" else 6):
+        # dimension expressions written with DERIVED dimension names ([capacitance], [energy]/[force])
+        out.append({"kind": "derived", "name": f"derived{i}", "n": 900 if tier == "quick" else 6000,
+                    "nit": ("float", "fraction")[i % 2]})
     for cfg in ("casei", "casei", "casei", "casei", "autoreduce", "decimal", "fraction"):
         # case-insensitive resolution iterates over sets: several hash seeds ("schedules")
         out.append({"kind": "config", "name": f"{cfg}{len(out)}", "cfg": cfg,
@@ -183,10 +188,10 @@ def run_shard(spec, rec):
                                     (F(e) if nit is F else nit(F(e).numerator) / nit(F(e).denominator))
                                     for k, e in x.items()})
 
-    def dim_predicates(a, dm_a, dm_other, tag):
+    def dim_predicates(a, dm_a, dm_other, tag, ds=None):
         """Quantity.check and the ureg.check decorator against a model-rendered dimension."""
         same = dm_a == dm_other
-        ds = dimstring(dict(dm_other))
+        ds = ds or dimstring(dict(dm_other))
         qa = Q(one, ua_(a))
         oc, v = outcome(lambda: qa.check(ds), pint)
         rec.count("predicate_evals")
@@ -234,6 +239,55 @@ def run_shard(spec, rec):
                                                       "missing": sorted(wantn - gotn)[:8] if oc == "ok" else oc,
                                                       "extra": sorted(gotn - wantn)[:8] if oc == "ok" else oc},
                                   workload="pairs")
+    elif kind == "derived":
+        dnames = sorted(m.dims)
+        basedims = sorted({k for v in dim.values() for k, _ in v})
+        allclasses = {}
+        for c in names:
+            allclasses.setdefault(dim[c], []).append(c)
+
+        def expand(items):
+            acc = {}
+            for d, e in items:
+                m.dim_expand(d, F(e), acc)
+            return tuple(sorted((k, v) for k, v in acc.items() if v))
+
+        def render(items):
+            txt = ""
+            for j, (d, e) in enumerate(items):
+                term = d if abs(e) == 1 else f"{d} ** {abs(e)}"
+                if j == 0:
+                    txt = term if e > 0 else "1 / " + term
+                else:
+                    txt += (" * " if e > 0 else " / ") + term
+            return txt
+
+        for i in range(spec["n"]):
+            r = rng.random()
+            if r < 0.3:
+                items = [(dnames[i % len(dnames)], 1)]
+            else:
+                k = 2 if r < 0.75 else 3
+                items = [(rng.choice(dnames if rng.random() < 0.8 else basedims), rng.choice((1, 1, -1, -1, 2, -2)))
+                         for _ in range(k)]
+            ds = render(items)
+            target = expand(items)
+            cls = allclasses.get(target)
+            a = rng.choice(cls) if cls and rng.random() < 0.6 else rng.choice(names)
+            rec.case(("derived", spec.get("nit"), ds, a), nontrivial=len(items) > 1 or items[0][0] in m.dims)
+            rec.count("derived_dimension_specs")
+            rec.observe("derived_spec_shapes", f"terms={len(items)};repeats={len(target) < sum(len(expand([it])) for it in items)}")
+            # (1) the registry's own reading of the expression
+            oc, got = outcome(lambda: ureg.get_dimensionality(ds), pint)
+            gotn = tuple(sorted((k, F(v).limit_denominator(64)) for k, v in dict(got).items())) if oc == "ok" else oc
+            if gotn != target:
+                rec.violation("dimension-expression-misread", {"expression": ds, "got": str(gotn)[:300],
+                                                               "want": str(target)[:300]},
+                              predicate="get_dimensionality", workload="derived")
+            # (2) the predicates against the conversion relation
+            dim_predicates(a, dim[a], target, "derived", ds=ds)
+            if dim[a] == target:
+                rec.count("derived_specs_matching_the_unit")
     elif kind == "spellings":
         reps = [v[0] for v in classes.values()]
         spells = list(m.spell.items())
